@@ -3,7 +3,7 @@ package main
 func init() {
 	properties["C01"] = &Property{
 		Title: "blocks expand back to the input (round trip)",
-		Rules: []string{"R-TILE", "R-LITPAIR", "R-BLOCKCLIP", "R-OFFSET-AGREE", "R-PREFIX-STOP", "R-INVALIDATE", "R-OSAP-RANGE", "R-OSAP-INDEX", "R-SHRINK-WRAP", "R-SHRINK-PB"},
+		Rules: []string{"R-TILE", "R-LITPAIR", "R-BLOCK-FRESH", "R-BLOCKCLIP", "R-OFFSET-AGREE", "R-PREFIX-STOP", "R-PREFIX-BOUND", "R-PREFIX-ALIGN", "R-INVALIDATE", "R-OSAP-RANGE", "R-OSAP-INDEX", "R-SHRINK-WRAP", "R-SHRINK-PB"},
 		Decided: "tiling of the block by literal runs and matches (cursor discipline, epilogue), LitLen/literal pairing, agreement of the emitted Offset with the positions actually compared (every word/prefix comparison feeding MatchLen is between x and x−Offset and starts where the verified part ends), re-basing/dropping of all search state on Shrink, recompute guard of OSAP's unverified edges.",
 		NotDecided: "byte-for-byte equality of the expansion; correctness of the 8-byte compare arithmetic, lcp/lcs, suffix.Sort/LCP/Segments.",
 	}
@@ -15,7 +15,7 @@ func init() {
 	}
 	properties["C03"] = &Property{
 		Title: "Parse accounts exactly and makes progress",
-		Rules: []string{"R-CLAMP-N", "R-EMPTY", "R-ADVANCE", "R-TILE", "R-BLOCKCLIP", "R-WWRITERS", "R-BLOCKLEN"},
+		Rules: []string{"R-CLAMP-N", "R-EMPTY", "R-ADVANCE", "R-TILE", "R-BLOCKCLIP", "R-PREFIX-BOUND", "R-BLOCK-FRESH", "R-WWRITERS", "R-BLOCKLEN"},
 		Decided: "block clamp, ErrEmptyBuffer discipline, returned n equals the W advance on every success return, W writer set, Block.Len.",
 		NotDecided: "that the bytes between W and W+n are the ones expanded (C01).",
 	}
@@ -49,7 +49,7 @@ func init() {
 	}
 	properties["C07"] = &Property{
 		Title: "what the parsers emit, the Decoder accepts",
-		Rules: []string{"R-CAPERR", "R-WINAGREE", "R-DEC-HEADROOM", "R-COUNTS-AT-END", "R-REMAINDER", "R-SHRINK-SAFE", "R-OFFPAIR", "R-LOOPS-DECODER"},
+		Rules: []string{"R-CAPERR", "R-WINAGREE", "R-DEC-HEADROOM", "R-COUNTS-AT-END", "R-REMAINDER", "R-SHRINK-SAFE", "R-OFFPAIR", "R-LOOPS-DECODER", "R-STALECAP"},
 		Decided: "capacity-class errors (classified by their deciding guard) do not escape Decoder methods; the decoder's window rejection is exactly Offset > min(len, WindowSize).",
 		NotDecided: "that after acceptance the bytes are the original ones (C01 ∧ C04).",
 	}
@@ -133,7 +133,7 @@ func init() {
 func init() {
 	properties["C11"] = &Property{
 		Title: "OSAP emits a minimum-cost parse (structural necessary conditions)",
-		Rules: []string{"R-DP-LIT", "R-DP-MATCH", "R-DP-BACK", "R-COSTTABLE", "R-EDGE-NEAREST", "R-SEGCALL", "R-OSAP-INDEX", "R-OSAP-RANGE", "R-SEG-LEFT", "R-SEG-ORDER", "R-SEG-SCAN", "R-SEG-BOUNDS", "R-SEG-PRE"},
+		Rules: []string{"R-DP-LIT", "R-DP-MATCH", "R-DP-BACK", "R-COSTTABLE", "R-EDGE-NEAREST", "R-SEGCALL", "R-OSAP-INDEX", "R-OSAP-RANGE", "R-RESET-COVER", "R-INVALIDATE", "R-SEG-LEFT", "R-SEG-ORDER", "R-SEG-SCAN", "R-SEG-BOUNDS", "R-SEG-PRE"},
 		Decided: "the dynamic program relaxes the literal step from every position and every (edge, length) pair up to min(edge.m, n−i) with the priced (m, o) stored, backtracks by the stored lengths from n to 0; the cost table of Verify and init agree and one cost function prices both step kinds; the edge builder sorts each group, pairs every occurrence with its predecessor, leaves early only monotonically and drops a pair only for window / dominance reasons; Segments is called with MinMatchLen and a MaxMatchLen-clamped maximum on tables of one text; the interval scan behind it is complete (C10 rules).",
 		NotDecided: "optimality itself (a statement about all alternative parses); the cost model against XZ; completeness of the edges as a fact about texts (C09, C10).",
 		Assumptions: []string{"suffix.Sort/LCP are correct (C09)", "cost(a,0) is additive in a (XZCost: 9 bits per literal), so initialising d[i] with cost(i,0) agrees with unit literal steps"},
@@ -143,7 +143,7 @@ func init() {
 func init() {
 	properties["C19"] = &Property{
 		Title: "matches are maximal; byte runs are compressed (structural clauses)",
-		Rules: []string{"R-OFFSET-AGREE", "R-EXT-COVER", "R-PREFIX-STOP", "R-PREFIX-COVER", "R-BACKEXT", "R-REINDEX", "R-CAND-MEASURED", "R-STRIDE", "R-GSAP-BOTH"},
+		Rules: []string{"R-OFFSET-AGREE", "R-EXT-COVER", "R-PREFIX-STOP", "R-PREFIX-COVER", "R-PREFIX-BOUND", "R-PREFIX-ALIGN", "R-BACKEXT", "R-REINDEX", "R-CAND-MEASURED", "R-STRIDE", "R-GSAP-BOTH"},
 		Decided: "for every non-optimizing parser: each comparison feeding MatchLen is between x and x−Offset and starts where the verified part ends; every path to an emission ends with a mismatch witness or at the block end (extension loops keep k + len(q) = len(p) − i, tail compared only with ≤ 7 bytes left); the backward extension covers min(pending literals, source position) bytes exactly when literals are pending; the scanned position and every position covered by a match are indexed; a table candidate with equal hash input inside the window is always measured.",
 		NotDecided: "the run clause as a count of literals per block (depends on hash values and table contents at run time); maximality as a fact about bytes rests on the trusted semantics of the word loaders and of lcp/lcs.",
 		Assumptions: []string{"_getLE64/getLE64 load the little-endian word at the start of their argument; lcp/lcs return exact common prefix/suffix lengths"},
@@ -153,7 +153,7 @@ func init() {
 func init() {
 	properties["C09"] = &Property{
 		Title: "suffix.Sort / LCP / InvertSA (narrow structural clauses)",
-		Rules: []string{"R-TEXT-RO", "R-LCP-INPUTS", "R-KASAI", "R-INVERT", "R-SORT-SHORT", "R-PREFIX-STOP", "R-PREFIX-COVER"},
+		Rules: []string{"R-TEXT-RO", "R-LCP-INPUTS", "R-KASAI", "R-INVERT", "R-SORT-SHORT", "R-PREFIX-STOP", "R-PREFIX-COVER", "R-PREFIX-BOUND", "R-PREFIX-ALIGN"},
 		Decided: "package suffix never writes a byte slice (the text is not modified); LCP reaches its core only with consistent lengths and with a supplied or freshly computed sa / sainv of the same text; the LCP core has the shape of the Kasai/phi recurrence including lcp[0] = 0; InvertSA stores sainv[sa[j]] = j for all j.",
 		NotDecided: "that Sort produces the suffix array (B*-substring sort, tandem-repeat sort, induced sorting: ssort.go, trsort.go, k1.go) and its independence of the previous contents of sa — a value property of a 1,600-line in-place algorithm with sign-bit markers; no sound static argument is in reach and none is claimed. Defects inside the sorters (e.g. seeded C09-1, C09-2) are NOT detected by this check.",
 		Assumptions: []string{"matchLen returns the exact common prefix length of its arguments"},
